@@ -264,32 +264,69 @@ def rule_rec(ctx) -> RuleResult:
             if not ok:
                 res.find("Concatenator", "update_array_attribute", f"record values {vals} do not follow {dt}", f"{ua.module.relpath}:{c.lineno}",
                          "start / size / object id / data id are written into the wrong fields")
-    for fn0 in p.all_functions():
-        if not (fn0.module.relpath.startswith("geoh5py/shared/concatenation") or fn0.module.relpath.endswith("h5_reader.py")):
-            continue
-        fn = ctx.view(fn0, inline=False)  # hoisted field-name constants substituted
-        fsc = None
+    scanned = [ctx.view(f0, inline=False) for f0 in p.all_functions()  # hoisted field-name constants substituted
+               if f0.module.relpath.startswith("geoh5py/shared/concatenation") or f0.module.relpath.endswith("h5_reader.py")]
+    scopes: dict = {}
+
+    def scope_of(f):
+        if id(f) not in scopes:
+            scopes[id(f)] = Scope(f, p)
+        return scopes[id(f)]
+
+    def field_names(e, f):
+        """The field names a subscript may stand for: a literal, or a local / conditional expression that is one on every path."""
+        out = []
+        for s_ in scope_of(f).sources(e) if not isinstance(e, ast.Constant) else [e]:
+            stack = [s_]
+            while stack:
+                x = stack.pop()
+                if isinstance(x, ast.IfExp):
+                    stack += [x.body, x.orelse]
+                elif isinstance(_const(x), str):
+                    out.append(x.value)
+                elif isinstance(x, ast.Name) and x is not e and scope_of(f).defs.of(x.id) and x.id not in scope_of(f).defs.params:
+                    stack += [v for a_ in scope_of(f).sources(x) for v in [a_] if not (isinstance(a_, ast.Name) and a_.id == x.id)]
+        return out
+
+    calls_of: dict = {}
+    for f in scanned:
+        for c in ast.walk(f.node):
+            if isinstance(c, ast.Call) and call_name(c):
+                calls_of.setdefault(call_name(c), []).append((f, c))
+
+    def is_index_table(e, f, _depth=0):
+        """The receiver is (a row / column of) a concatenated index: named so, bound from one, or a parameter that every... some call hands one to."""
+        txt = unparse(e).lower()
+        if "index" in txt:
+            return True
+        if any(isinstance(x, ast.Name) for x in ast.walk(e)) and "index" in scope_of(f).text(e).lower():
+            return True  # `rows = self.index[label]; rows['Size']`
+        root = _root_name(e)
+        own = f.params[1:] if f.kind in ("method", "classmethod", "getter", "setter") else f.params
+        if root in own and _depth < 2 and not scope_of(f).defs.rebound(root):
+            i = own.index(root)  # a helper that receives the table: what its call sites hand over
+            return any(a is not None and is_index_table(a, cf, _depth + 1) for cf, c in calls_of.get(f.name, ()) for a in [_arg(c, i, root)])
+        return False
+
+    for fn in scanned:
         for s in ast.walk(fn.node):
             if isinstance(s, ast.Subscript) and not isinstance(s.slice, (ast.Slice, ast.Tuple)):
-                nm = _const(s.slice)
-                if not isinstance(nm, str) and isinstance(s.slice, ast.Name):
-                    fsc = fsc or Scope(fn, p)
-                    nm = _const(fsc.expand(s.slice))
-                if not isinstance(nm, str):
+                if isinstance(s.slice, ast.Constant) and not isinstance(s.slice.value, str):
                     continue
-                recv = unparse(s.value).lower()
-                if "index" not in recv and any(isinstance(x, ast.Name) for x in ast.walk(s.value)):
-                    fsc = fsc or Scope(fn, p)
-                    recv = fsc.text(s.value).lower()  # `rows = self.index[label]; rows['Size']`
-                if "index" not in recv:
+                if not isinstance(s.slice, (ast.Constant, ast.Name, ast.IfExp)):
                     continue
-                if nm in ("Index",):
+                names_ = field_names(s.slice, fn)
+                if not names_ or not is_index_table(s.value, fn):
                     continue
-                ok = nm in dt
-                res.inst(f"{fn.qualname}:{s.lineno} {unparse(s)[:50]}", ok=ok)
-                if not ok:
-                    res.find(fn.cls.name if fn.cls else fn.module.short, fn.prop or fn.name, f"index record field {nm!r} is not in the dtype {dt}",
-                             f"{fn.module.relpath}:{s.lineno}", "the reader subscripts a field the writer never creates")
+                for nm in sorted(set(names_)):
+                    if nm in ("Index",):
+                        continue
+                    ok = nm in dt
+                    via = "" if isinstance(s.slice, ast.Constant) else f" = {nm!r}"
+                    res.inst(f"{fn.qualname}:{s.lineno} {unparse(s)[:50]}{via}", ok=ok)
+                    if not ok:
+                        res.find(fn.cls.name if fn.cls else fn.module.short, fn.prop or fn.name, f"index record field {nm!r} is not in the dtype {dt}",
+                                 f"{fn.module.relpath}:{s.lineno}", "the reader subscripts a field the writer never creates")
             if isinstance(s, ast.keyword) and s.arg == "order" and isinstance(_const(s.value), str):
                 ok = s.value.value in dt
                 res.inst(f"{fn.qualname}: sort order {s.value.value!r}", ok=ok)
